@@ -291,10 +291,16 @@ func bterms(bs []boundary) string {
 }
 
 // runHistory10 runs one history on a fresh channel over memorydb + LevelDB and returns the case term.
-func runHistory10(g *cv.Gen, t *Tables, res *hx.Result, st *stores, out string, k int, class string, maxLen, crashP int) string {
-	n := []int{2, 2, 2, 2, 3, 3, 3, 4, 11}[g.R.Intn(9)]
-	if class != "random" && n == 11 && g.R.Intn(2) == 0 {
-		n = 3
+func runHistory10(g *cv.Gen, t *Tables, res *hx.Result, st *stores, out string, k int, class string, maxLen, crashP int, big bool) string {
+	n := []int{2, 2, 2, 2, 3, 3, 3, 4}[g.R.Intn(8)]
+	// participant counts around every width boundary of the signature key encoding (sigKey/sigKeys:
+	// decimal index padded to a width derived from the count): 9/10/11 always, 99/100/101 when asked
+	if b := boundaryParts(k, big); b > 0 {
+		n = b
+		if n >= 99 { // keep the case text bounded: a short deliberate history
+			class = []string{"boundary", "boundary-lifecycle", "boundary"}[(k/400)%3]
+			maxLen = 6
+		}
 	}
 	kinds := []string{"none", "pay", "mock"}
 	c := NewCtx(g, t, n, g.R.Intn(n), kinds[g.R.Intn(3)])
@@ -421,6 +427,30 @@ func runHistory10(g *cv.Gen, t *Tables, res *hx.Result, st *stores, out string, 
 		createT, hexKeys(keys0, atoms), hx.List(opT), hx.List(obsT), keysEndT)
 }
 
+// boundaryParts schedules the participant counts at the width boundaries of the signature keys:
+// three histories in every 40 use 9, 10, 11 participants; with big, three in every 400 use 99, 100, 101.
+func boundaryParts(k int, big bool) int {
+	if big {
+		switch k % 400 {
+		case 15:
+			return 99
+		case 16:
+			return 100
+		case 17:
+			return 101
+		}
+	}
+	switch k % 40 {
+	case 5:
+		return 9
+	case 6:
+		return 10
+	case 7:
+		return 11
+	}
+	return 0
+}
+
 var classes10 = []string{"random", "lifecycle", "sign-discard-update", "force-over-signed", "progress-from-signing", "random", "init-resign"}
 
 // RunC10 is the driver of property C10.
@@ -444,7 +474,7 @@ func RunC10(seed int64, tier, out string) {
 			t = NewTables()
 		}
 		class := classes10[k%len(classes10)]
-		cases = append(cases, runHistory10(g, t, res, st, out, k, class, maxLen, crashP))
+		cases = append(cases, runHistory10(g, t, res, st, out, k, class, maxLen, crashP, tier != "quick"))
 		if len(cases) >= perFile {
 			w.write(t, cases)
 			cases, t = nil, nil
